@@ -20,6 +20,57 @@ pub fn content_range(a: u64, e: u64) -> Vec<u8> {
     (a..e).map(content).collect()
 }
 
+/// The entity's chunk type: a `Buf` of up to two pieces. The `Entity` trait allows any `Buf` ("may be
+/// something more exotic" than `Bytes`); with `split` a chunk of two or more bytes is handed over as
+/// two non-contiguous pieces, so that `chunk().len() < remaining()`.
+#[derive(Debug)]
+pub struct PieceBuf {
+    a: Bytes,
+    b: Bytes,
+}
+impl PieceBuf {
+    pub fn new(d: Vec<u8>, split: bool) -> Self {
+        if split && d.len() >= 2 {
+            let m = d.len() / 2;
+            PieceBuf { a: Bytes::from(d[..m].to_vec()), b: Bytes::from(d[m..].to_vec()) }
+        } else {
+            PieceBuf { a: Bytes::from(d), b: Bytes::new() }
+        }
+    }
+    pub fn into_vec(mut self) -> Vec<u8> {
+        let mut v = Vec::with_capacity(bytes::Buf::remaining(&self));
+        while bytes::Buf::has_remaining(&self) {
+            let c = bytes::Buf::chunk(&self).to_vec();
+            bytes::Buf::advance(&mut self, c.len());
+            v.extend(c);
+        }
+        v
+    }
+}
+impl bytes::Buf for PieceBuf {
+    fn remaining(&self) -> usize {
+        self.a.len() + self.b.len()
+    }
+    fn chunk(&self) -> &[u8] {
+        if !self.a.is_empty() { &self.a } else { &self.b }
+    }
+    fn advance(&mut self, n: usize) {
+        let k = n.min(self.a.len());
+        bytes::Buf::advance(&mut self.a, k);
+        bytes::Buf::advance(&mut self.b, n - k);
+    }
+}
+impl From<Vec<u8>> for PieceBuf {
+    fn from(v: Vec<u8>) -> Self {
+        PieceBuf::new(v, false)
+    }
+}
+impl From<&'static [u8]> for PieceBuf {
+    fn from(v: &'static [u8]) -> Self {
+        PieceBuf { a: Bytes::from_static(v), b: Bytes::new() }
+    }
+}
+
 #[derive(Clone, Debug, PartialEq, Eq)]
 pub enum Ev {
     Pending,
@@ -101,6 +152,8 @@ pub struct EntityCfg {
     /// recipe for the k-th get_range call; calls beyond the list get `default_recipe`
     pub recipes: Vec<Vec<Op>>,
     pub default_recipe: Vec<Op>,
+    /// hand every chunk of two or more bytes over as two non-contiguous pieces
+    pub split: bool,
 }
 
 #[derive(Default)]
@@ -116,9 +169,10 @@ pub struct ScriptedEntity {
 
 struct ScriptStream {
     evs: std::collections::VecDeque<Ev>,
+    split: bool,
 }
 impl Stream for ScriptStream {
-    type Item = Result<Bytes, BoxError>;
+    type Item = Result<PieceBuf, BoxError>;
     fn poll_next(mut self: Pin<&mut Self>, cx: &mut Context<'_>) -> Poll<Option<Self::Item>> {
         match self.evs.pop_front() {
             None => Poll::Ready(None),
@@ -126,7 +180,7 @@ impl Stream for ScriptStream {
                 cx.waker().wake_by_ref();
                 Poll::Pending
             }
-            Some(Ev::Data(d)) => Poll::Ready(Some(Ok(Bytes::from(d)))),
+            Some(Ev::Data(d)) => Poll::Ready(Some(Ok(PieceBuf::new(d, self.split)))),
             Some(Ev::Err(c)) => Poll::Ready(Some(Err(Box::new(ScriptError(c))))),
         }
     }
@@ -134,7 +188,7 @@ impl Stream for ScriptStream {
 
 impl http_serve::Entity for ScriptedEntity {
     type Error = BoxError;
-    type Data = Bytes;
+    type Data = PieceBuf;
     fn len(&self) -> u64 {
         self.cfg.len
     }
@@ -148,7 +202,7 @@ impl http_serve::Entity for ScriptedEntity {
         let recipe = self.cfg.recipes.get(k).unwrap_or(&self.cfg.default_recipe);
         let evs = materialize(recipe, &range);
         log.streams.push(evs.clone());
-        Box::pin(ScriptStream { evs: evs.into() })
+        Box::pin(ScriptStream { evs: evs.into(), split: self.cfg.split })
     }
     fn add_headers(&self, h: &mut HeaderMap) {
         for (k, v) in &self.cfg.hdrs {
